@@ -95,15 +95,22 @@ impl AtomicBuffer {
     pub fn wrap_slice(slice: &mut [u8]) -> Self {
         Self {
             ptr: slice.as_mut_ptr(),
-            len: slice.len() as Index,
+            len: Self::slice_len(slice.len()),
         }
     }
 
     pub(crate) unsafe fn wrap_raw_slice(slice: *mut [u8]) -> Self {
         Self {
             ptr: slice as *mut _,
-            len: slice.len() as Index,
+            len: Self::slice_len(slice.len()),
         }
+    }
+
+    /// Length of a slice as an `Index`. A slice longer than `Index::MAX` fits no buffer; converting its length
+    /// with `as` would silently drop the high bits and let the bounds check see a short (or negative) length.
+    #[inline]
+    fn slice_len(len: usize) -> Index {
+        Index::try_from(len).expect("slice length exceeds Index::MAX")
     }
 
     // TODO: check that len is ok and ptr is aligned
@@ -269,7 +276,7 @@ impl AtomicBuffer {
     pub fn put_bytes(&self, offset: Index, src: &[u8]) {
         #[cfg(unitedtraders_aeron_rs_verif)]
         let _verif = crate::verif_hook::enter(crate::verif_hook::AccessKind::PutBytes, self.ptr as usize + offset as usize, src.len(), src.as_ptr() as i64, 0);
-        self.bounds_check(offset, src.len() as Index);
+        self.bounds_check(offset, Self::slice_len(src.len()));
 
         unsafe {
             let ptr = self.ptr.offset(offset as isize);
@@ -370,10 +377,11 @@ impl AtomicBuffer {
     pub fn put_string(&self, offset: Index, string: &[u8]) {
         #[cfg(unitedtraders_aeron_rs_verif)]
         let _verif = crate::verif_hook::enter(crate::verif_hook::AccessKind::RegionWrite, self.ptr as usize + offset as usize, string.len() + 4, 0, 0);
-        self.bounds_check(offset, string.len() as Index + I32_SIZE);
+        let length = Self::slice_len(string.len());
+        self.bounds_check(offset, length + I32_SIZE);
 
         // String in Aeron has first 4 bytes as length and rest "length" bytes is string body
-        self.put::<i32>(offset, string.len() as i32);
+        self.put::<i32>(offset, length);
 
         self.put_bytes(offset + I32_SIZE, string);
     }
@@ -382,11 +390,12 @@ impl AtomicBuffer {
     pub fn put_string_without_length(&self, offset: Index, string: &[u8]) -> Index {
         #[cfg(unitedtraders_aeron_rs_verif)]
         let _verif = crate::verif_hook::enter(crate::verif_hook::AccessKind::RegionWrite, self.ptr as usize + offset as usize, string.len() + 4, 0, 0);
-        self.bounds_check(offset, string.len() as Index);
+        let length = Self::slice_len(string.len());
+        self.bounds_check(offset, length);
 
         self.put_bytes(offset + I32_SIZE, string);
 
-        string.len() as Index
+        length
     }
 
     /**
